@@ -39,6 +39,115 @@ pub fn canon_file(text: &str) -> Result<String, String> {
     Ok(prettyplease::unparse(&f))
 }
 
+/// Attributes that cannot affect any of the twenty properties (lint control, hints); removed before comparing sections.
+const INERT_ATTRS: &[&str] = &["must_use", "allow", "warn", "inline", "cold"];
+
+fn strip_inert(attrs: &mut Vec<syn::Attribute>) {
+    attrs.retain(|a| !INERT_ATTRS.iter().any(|n| a.path().is_ident(n)));
+}
+
+struct StripInert;
+impl syn::visit_mut::VisitMut for StripInert {
+    fn visit_item_struct_mut(&mut self, i: &mut syn::ItemStruct) {
+        strip_inert(&mut i.attrs);
+        syn::visit_mut::visit_item_struct_mut(self, i);
+    }
+    fn visit_item_enum_mut(&mut self, i: &mut syn::ItemEnum) {
+        strip_inert(&mut i.attrs);
+        syn::visit_mut::visit_item_enum_mut(self, i);
+    }
+    fn visit_item_fn_mut(&mut self, i: &mut syn::ItemFn) {
+        strip_inert(&mut i.attrs);
+        syn::visit_mut::visit_item_fn_mut(self, i);
+    }
+    fn visit_item_impl_mut(&mut self, i: &mut syn::ItemImpl) {
+        strip_inert(&mut i.attrs);
+        syn::visit_mut::visit_item_impl_mut(self, i);
+    }
+    fn visit_impl_item_fn_mut(&mut self, i: &mut syn::ImplItemFn) {
+        strip_inert(&mut i.attrs);
+        syn::visit_mut::visit_impl_item_fn_mut(self, i);
+    }
+    fn visit_field_mut(&mut self, i: &mut syn::Field) {
+        strip_inert(&mut i.attrs);
+        syn::visit_mut::visit_field_mut(self, i);
+    }
+}
+
+fn print_items(items: Vec<syn::Item>) -> String {
+    prettyplease::unparse(&syn::File { shebang: None, attrs: vec![], items })
+}
+
+/// The file cut into sections, one per top-level item, keyed by what the item IS (`struct Pet`, `impl IntoFuture for
+/// FluentRequest<'a, GetPetRequest>`, `fn default_http_client`, ...): item order inside a file is not observable by any
+/// property, `use` lines and `mod` declarations are compared as sorted sets, inert attributes are dropped. The whole
+/// file (exact order, every attribute) is the extra section `*`, which only the compile property looks at.
+pub fn canon_sections(text: &str) -> Result<Vec<(String, String)>, String> {
+    use quote::ToTokens;
+    use syn::visit_mut::VisitMut;
+    let ts: TokenStream = text.parse().map_err(|e| format!("lex: {:?}", e))?;
+    let ts = canon_tokens(ts);
+    let f: syn::File = syn::parse2(ts).map_err(|e| format!("parse: {}", e))?;
+    let mut out: Vec<(String, String)> = vec![("*".to_string(), prettyplease::unparse(&f))];
+    let mut f = f;
+    StripInert.visit_file_mut(&mut f);
+    let mut inner = f.attrs.clone();
+    inner.retain(|a| !INERT_ATTRS.iter().any(|n| a.path().is_ident(n)));
+    if !inner.is_empty() {
+        out.push(("attrs".into(), prettyplease::unparse(&syn::File { shebang: None, attrs: inner, items: vec![] })));
+    }
+    let squash = |t: String| t.split_whitespace().collect::<Vec<_>>().join(" ");
+    let mut uses: Vec<String> = vec![];
+    let mut mods: Vec<String> = vec![];
+    let mut counts: std::collections::BTreeMap<String, usize> = Default::default();
+    for it in f.items {
+        let key = match &it {
+            syn::Item::Use(_) => {
+                uses.push(print_items(vec![it.clone()]));
+                continue;
+            }
+            syn::Item::Mod(m) if m.content.is_none() => {
+                mods.push(print_items(vec![it.clone()]));
+                continue;
+            }
+            syn::Item::Struct(x) => format!("struct {}", x.ident),
+            syn::Item::Enum(x) => format!("enum {}", x.ident),
+            syn::Item::Type(x) => format!("type {}", x.ident),
+            syn::Item::Fn(x) => format!("fn {}", x.sig.ident),
+            syn::Item::Mod(x) => format!("mod {}", x.ident),
+            syn::Item::Const(x) => format!("const {}", x.ident),
+            syn::Item::Static(x) => format!("static {}", x.ident),
+            syn::Item::Trait(x) => format!("trait {}", x.ident),
+            syn::Item::Impl(x) => match &x.trait_ {
+                Some((_, path, _)) => format!("impl {} for {}", squash(path.to_token_stream().to_string()), squash(x.self_ty.to_token_stream().to_string())),
+                None => format!("impl {}", squash(x.self_ty.to_token_stream().to_string())),
+            },
+            _ => "other".to_string(),
+        };
+        let n = counts.entry(key.clone()).or_insert(0);
+        *n += 1;
+        let key = if *n > 1 { format!("{} #{}", key, n) } else { key };
+        out.push((key, print_items(vec![it])));
+    }
+    if !uses.is_empty() {
+        uses.sort();
+        out.push(("use".into(), uses.concat()));
+    }
+    if !mods.is_empty() {
+        mods.sort();
+        out.push(("mod".into(), mods.concat()));
+    }
+    Ok(out)
+}
+
+/// the `F` lines for one file: one per section, path and section joined by `#`
+pub fn section_lines(id: &str, path: &str, text: &str) -> Vec<String> {
+    match canon_sections(text) {
+        Ok(secs) => secs.into_iter().map(|(k, t)| format!("{} F {} {}", id, hex(format!("{}#{}", path, k).as_bytes()), hex(t.as_bytes()))).collect(),
+        Err(e) => vec![format!("{} F {} UNPARSEABLE:{}", id, hex(format!("{}#*", path).as_bytes()), hex(e.as_bytes()))],
+    }
+}
+
 pub struct Cfg {
     pub name: String,
     pub derives: Vec<String>,
@@ -180,9 +289,8 @@ pub fn cmd_emit(args: &[String]) {
             }
             for (p, c) in tree {
                 let text = String::from_utf8_lossy(&c).to_string();
-                match canon_file(&text) {
-                    Ok(t) => writeln!(imp, "{} F {} {}", id, hex(p.as_bytes()), hex(t.as_bytes())).unwrap(),
-                    Err(e) => writeln!(imp, "{} F {} UNPARSEABLE:{}", id, hex(p.as_bytes()), hex(e.as_bytes())).unwrap(),
+                for l in section_lines(&id.to_string(), &p, &text) {
+                    writeln!(imp, "{}", l).unwrap();
                 }
             }
         } else {
@@ -215,10 +323,8 @@ pub fn cmd_emit_canon(args: &[String]) {
         let p: Vec<&str> = l.split(' ').collect();
         if p.len() == 4 && p[1] == "F" {
             let raw = String::from_utf8_lossy(&unhex(p[3])).to_string();
-            match canon_file(&raw) {
-                Ok(t) => format!("{} F {} {}", p[0], p[2], hex(t.as_bytes())),
-                Err(e) => format!("{} F {} UNPARSEABLE:{}", p[0], p[2], hex(e.as_bytes())),
-            }
+            let path = String::from_utf8_lossy(&unhex(p[2])).to_string();
+            section_lines(p[0], &path, &raw).join("\n")
         } else {
             l.clone()
         }
